@@ -40,12 +40,19 @@ type Map = sync.Map
 type Pool = sync.Pool
 
 // Mutex replaces sync.Mutex.
+// Outside a controlled execution every type falls back to the real primitive,
+// so instrumented code also works under real concurrency.
 type Mutex struct {
 	locked bool
 	owner  int
+	real   sync.Mutex
 }
 
 func (m *Mutex) Lock() {
+	if !Running() {
+		m.real.Lock()
+		return
+	}
 	point("lock", func() bool { return !m.locked })
 	if s.teardown {
 		return
@@ -55,6 +62,9 @@ func (m *Mutex) Lock() {
 }
 
 func (m *Mutex) TryLock() bool {
+	if !Running() {
+		return m.real.TryLock()
+	}
 	point("trylock", nil)
 	if m.locked {
 		return false
@@ -65,6 +75,10 @@ func (m *Mutex) TryLock() bool {
 }
 
 func (m *Mutex) Unlock() {
+	if !Running() {
+		m.real.Unlock()
+		return
+	}
 	if s.teardown {
 		return
 	}
@@ -78,9 +92,14 @@ func (m *Mutex) Unlock() {
 type RWMutex struct {
 	writer  bool
 	readers int
+	real    sync.RWMutex
 }
 
 func (m *RWMutex) Lock() {
+	if !Running() {
+		m.real.Lock()
+		return
+	}
 	point("wlock", func() bool { return !m.writer && m.readers == 0 })
 	if s.teardown {
 		return
@@ -88,6 +107,10 @@ func (m *RWMutex) Lock() {
 	m.writer = true
 }
 func (m *RWMutex) Unlock() {
+	if !Running() {
+		m.real.Unlock()
+		return
+	}
 	if s.teardown {
 		return
 	}
@@ -97,6 +120,10 @@ func (m *RWMutex) Unlock() {
 	m.writer = false
 }
 func (m *RWMutex) RLock() {
+	if !Running() {
+		m.real.RLock()
+		return
+	}
 	point("rlock", func() bool { return !m.writer })
 	if s.teardown {
 		return
@@ -104,6 +131,10 @@ func (m *RWMutex) RLock() {
 	m.readers++
 }
 func (m *RWMutex) RUnlock() {
+	if !Running() {
+		m.real.RUnlock()
+		return
+	}
 	if s.teardown {
 		return
 	}
@@ -123,6 +154,17 @@ func (r rlocker) Unlock() { r.m.RUnlock() }
 type Cond struct {
 	L       Locker
 	waiters []*bool
+	realMu  sync.Mutex
+	real    *sync.Cond
+}
+
+func (c *Cond) realCond() *sync.Cond {
+	c.realMu.Lock()
+	defer c.realMu.Unlock()
+	if c.real == nil {
+		c.real = sync.NewCond(c.L)
+	}
+	return c.real
 }
 
 func NewCond(l Locker) *Cond { return &Cond{L: l} }
@@ -131,8 +173,9 @@ func (c *Cond) Wait() {
 	if s.teardown {
 		return
 	}
-	if !s.active {
-		panic("vsched: Cond.Wait outside a controlled execution")
+	if !Running() {
+		c.realCond().Wait()
+		return
 	}
 	woken := false
 	c.waiters = append(c.waiters, &woken)
@@ -142,6 +185,10 @@ func (c *Cond) Wait() {
 }
 
 func (c *Cond) Signal() {
+	if !Running() {
+		c.realCond().Signal()
+		return
+	}
 	if len(c.waiters) > 0 {
 		*c.waiters[0] = true
 		c.waiters = c.waiters[1:]
@@ -149,6 +196,10 @@ func (c *Cond) Signal() {
 }
 
 func (c *Cond) Broadcast() {
+	if !Running() {
+		c.realCond().Broadcast()
+		return
+	}
 	for _, w := range c.waiters {
 		*w = true
 	}
@@ -157,10 +208,15 @@ func (c *Cond) Broadcast() {
 
 // WaitGroup replaces sync.WaitGroup.
 type WaitGroup struct {
-	n int
+	n    int
+	real sync.WaitGroup
 }
 
 func (wg *WaitGroup) Add(d int) {
+	if !Running() {
+		wg.real.Add(d)
+		return
+	}
 	wg.n += d
 	if wg.n < 0 {
 		panic("sync: negative WaitGroup counter")
@@ -168,6 +224,10 @@ func (wg *WaitGroup) Add(d int) {
 }
 func (wg *WaitGroup) Done() { wg.Add(-1) }
 func (wg *WaitGroup) Wait() {
+	if !Running() {
+		wg.real.Wait()
+		return
+	}
 	point("wg-wait", func() bool { return wg.n == 0 })
 }
 func (wg *WaitGroup) Go(f func()) {
